@@ -9,6 +9,7 @@ from . import c17
 ID = "C18"
 MODULES = ["Helios.Props.C18", "Helios.Props.C17", "Helios.Props.Facts"]
 THEOREMS = ["Helios.Cfg.validate_iff_documented", "Helios.Cfg.validate_first", "Helios.Cfg.accepted_breaker_live",
+            "Helios.Cfg.accepted_values_fit",
             "Helios.Http.startup_fail_closed",
             "Helios.Facts.strategies_eq", "Helios.Facts.log_enums_eq"]
 
@@ -19,7 +20,11 @@ SERVER = [("server:\n  port: 8080\n", "port=8080"), ("server:\n  port: 1\n", "po
           ("server:\n  port: 80\n  tls:\n    enabled: true\n    certFile: c.pem\n", "port=80;tls=1;cert=c.pem")]
 TIMEOUTS = [("", ""), ("    read: 15\n    write: 15\n    idle: 60\n    handler: 30\n    shutdown: 0\n", "tr=15;tw=15;ti=60;th=30;ts=0"),
             ("    read: -1\n", "tr=-1"), ("    write: -5\n", "tw=-5"), ("    backend_dial: -1\n    backend_read: -2\n", "td=-1;tbr=-2"),
-            ("    backend_idle: -1\n", "tbi=-1"), ("    shutdown: -1\n    handler: -1\n", "ts=-1;th=-1"), ("    idle: -3\n", "ti=-3")]
+            ("    backend_idle: -1\n", "tbi=-1"), ("    shutdown: -1\n    handler: -1\n", "ts=-1;th=-1"), ("    idle: -3\n", "ti=-3"),
+            # the largest number of seconds a time.Duration holds, and one more
+            ("    read: 9223372036\n    backend_idle: 9223372036\n", "tr=9223372036;tbi=9223372036"),
+            ("    handler: 9223372037\n", "th=9223372037"), ("    backend_read: 99999999999\n    write: 9223372037\n", "tbr=99999999999;tw=9223372037"),
+            ("    shutdown: 9223372037\n    idle: -1\n", "ts=9223372037;ti=-1")]
 BACKENDS = [("backends:\n  - name: s1\n    address: http://localhost:8081\n    weight: 5\n  - name: s2\n    address: http://localhost:8082\n", "b=s1|http://localhost:8081|5,s2|http://localhost:8082|0"),
             ("backends:\n  - name: only\n    address: http://127.0.0.1:9\n    weight: 0\n", "b=only|http://127.0.0.1:9|0"),
             ("backends: []\n", "b="), ("", "b="),
@@ -34,7 +39,9 @@ LB = [("load_balancer:\n  strategy: round_robin\n", "strat=round_robin"), ("", "
       ("load_balancer:\n  websocket_pool:\n    enabled: true\n    max_idle: 5\n    max_active: 4\n", "ws=1;wsi=5;wsa=4"),
       ("load_balancer:\n  websocket_pool:\n    enabled: true\n    max_active: -2\n", "ws=1;wsa=-2"),
       ("load_balancer:\n  websocket_pool:\n    enabled: true\n    idle_timeout_seconds: -1\n", "ws=1;wst=-1"),
-      ("load_balancer:\n  websocket_pool:\n    enabled: false\n    max_idle: -1\n", "wsi=-1")]
+      ("load_balancer:\n  websocket_pool:\n    enabled: false\n    max_idle: -1\n", "wsi=-1"),
+      ("load_balancer:\n  websocket_pool:\n    enabled: true\n    idle_timeout_seconds: 9223372037\n", "ws=1;wst=9223372037"),
+      ("load_balancer:\n  websocket_pool:\n    enabled: false\n    idle_timeout_seconds: 9223372037\n", "wst=9223372037")]
 HEALTH = [("", ""), ("health_checks:\n  active:\n    enabled: true\n    interval: 10\n    timeout: 5\n    path: /health\n  passive:\n    enabled: true\n    unhealthy_threshold: 3\n    unhealthy_timeout: 30\n", "act=1;ai=10;at=5;ap=/health;pas=1;pt=3;pto=30"),
           ("health_checks:\n  active:\n    enabled: true\n    interval: 0\n    timeout: 5\n    path: /h\n", "act=1;ai=0;at=5;ap=/h"),
           ("health_checks:\n  active:\n    enabled: true\n    interval: 5\n    timeout: 5\n    path: /h\n", "act=1;ai=5;at=5;ap=/h"),
@@ -48,10 +55,14 @@ HEALTH = [("", ""), ("health_checks:\n  active:\n    enabled: true\n    interval
           ("health_checks:\n  active:\n    enabled: true\n    interval: 10\n    timeout: 5\n    path: /health\n  passive:\n    enabled: true\n    unhealthy_threshold: 3\n    unhealthy_timeout: 0\n", "act=1;ai=10;at=5;ap=/health;pas=1;pt=3;pto=0"),
           ("health_checks:\n  active:\n    enabled: true\n    interval: 10\n    timeout: 5\n    path: /health\n  passive:\n    enabled: true\n    unhealthy_threshold: -1\n    unhealthy_timeout: 30\n", "act=1;ai=10;at=5;ap=/health;pas=1;pt=-1;pto=30"),
           ("health_checks:\n  active:\n    enabled: true\n    interval: 0\n    timeout: 5\n    path: /health\n  passive:\n    enabled: true\n    unhealthy_threshold: 3\n    unhealthy_timeout: 30\n", "act=1;ai=0;at=5;ap=/health;pas=1;pt=3;pto=30"),
+          ("health_checks:\n  passive:\n    enabled: true\n    unhealthy_threshold: 2\n    unhealthy_timeout: 9223372037\n", "pas=1;pt=2;pto=9223372037"),
+          ("health_checks:\n  passive:\n    enabled: true\n    unhealthy_threshold: 2\n    unhealthy_timeout: 9223372036\n", "pas=1;pt=2;pto=9223372036"),
+          ("health_checks:\n  active:\n    enabled: true\n    interval: 9223372038\n    timeout: 9223372037\n    path: /h\n", "act=1;ai=9223372038;at=9223372037;ap=/h"),
           ("health_checks:\n  active:\n    enabled: false\n    interval: 0\n  passive:\n    enabled: true\n    unhealthy_threshold: 0\n    unhealthy_timeout: 30\n", "act=0;ai=0;pas=1;pt=0;pto=30")]
 RL = [("", ""), ("rate_limit:\n  enabled: true\n  max_tokens: 100\n  refill_rate_seconds: 1\n", "rl=1;rlm=100;rlr=1"),
       ("rate_limit:\n  enabled: true\n  max_tokens: 0\n  refill_rate_seconds: 1\n", "rl=1;rlm=0;rlr=1"),
-      ("rate_limit:\n  enabled: true\n  max_tokens: 5\n", "rl=1;rlm=5"), ("rate_limit:\n  enabled: false\n  max_tokens: -5\n", "rlm=-5")]
+      ("rate_limit:\n  enabled: true\n  max_tokens: 5\n", "rl=1;rlm=5"), ("rate_limit:\n  enabled: false\n  max_tokens: -5\n", "rlm=-5"),
+      ("rate_limit:\n  enabled: true\n  max_tokens: 5\n  refill_rate_seconds: 9223372037\n", "rl=1;rlm=5;rlr=9223372037")]
 CB = [("", ""), ("circuit_breaker:\n  enabled: true\n  max_requests: 5\n  interval_seconds: 60\n  timeout_seconds: 60\n  failure_threshold: 5\n  success_threshold: 2\n", "cb=1;cbm=5;cbi=60;cbt=60;cbf=5;cbs=2"),
       ("circuit_breaker:\n  enabled: true\n  interval_seconds: 60\n  timeout_seconds: 60\n  failure_threshold: 5\n  success_threshold: 2\n", "cb=1;cbi=60;cbt=60;cbf=5;cbs=2"),
       ("circuit_breaker:\n  enabled: true\n  failure_threshold: 50\n", "cb=1;cbf=50"),
@@ -59,7 +70,14 @@ CB = [("", ""), ("circuit_breaker:\n  enabled: true\n  max_requests: 5\n  interv
       ("circuit_breaker:\n  enabled: true\n  max_requests: -1\n  interval_seconds: 60\n  timeout_seconds: 60\n  failure_threshold: 5\n  success_threshold: 2\n", "cb=1;cbm=-1;cbi=60;cbt=60;cbf=5;cbs=2"),
       ("circuit_breaker:\n  enabled: true\n  interval_seconds: 0\n  timeout_seconds: 60\n  failure_threshold: 5\n  success_threshold: 2\n", "cb=1;cbi=0;cbt=60;cbf=5;cbs=2"),
       ("circuit_breaker:\n  enabled: true\n  interval_seconds: 60\n  timeout_seconds: 0\n  failure_threshold: 5\n  success_threshold: 2\n", "cb=1;cbi=60;cbt=0;cbf=5;cbs=2"),
-      ("circuit_breaker:\n  enabled: true\n  interval_seconds: 60\n  timeout_seconds: 60\n  failure_threshold: 0\n  success_threshold: 2\n", "cb=1;cbi=60;cbt=60;cbf=0;cbs=2")]
+      ("circuit_breaker:\n  enabled: true\n  interval_seconds: 60\n  timeout_seconds: 60\n  failure_threshold: 0\n  success_threshold: 2\n", "cb=1;cbi=60;cbt=60;cbf=0;cbs=2"),
+      # counts beyond uint32 / seconds beyond time.Duration: accepted they would wrap in the wiring
+      ("circuit_breaker:\n  enabled: true\n  max_requests: 4294967297\n  interval_seconds: 60\n  timeout_seconds: 60\n  failure_threshold: 5\n  success_threshold: 5\n", "cb=1;cbm=4294967297;cbi=60;cbt=60;cbf=5;cbs=5"),
+      ("circuit_breaker:\n  enabled: true\n  max_requests: 4294967295\n  interval_seconds: 9223372036\n  timeout_seconds: 60\n  failure_threshold: 4294967295\n  success_threshold: 2\n", "cb=1;cbm=4294967295;cbi=9223372036;cbt=60;cbf=4294967295;cbs=2"),
+      ("circuit_breaker:\n  enabled: true\n  interval_seconds: 9223372037\n  timeout_seconds: 60\n  failure_threshold: 3\n  success_threshold: 1\n", "cb=1;cbi=9223372037;cbt=60;cbf=3;cbs=1"),
+      ("circuit_breaker:\n  enabled: true\n  interval_seconds: 60\n  timeout_seconds: 9223372037\n  failure_threshold: 4294967296\n  success_threshold: 1\n", "cb=1;cbi=60;cbt=9223372037;cbf=4294967296;cbs=1"),
+      ("circuit_breaker:\n  enabled: true\n  interval_seconds: 60\n  timeout_seconds: 60\n  failure_threshold: 3\n  success_threshold: 4294967296\n", "cb=1;cbi=60;cbt=60;cbf=3;cbs=4294967296"),
+      ("circuit_breaker:\n  enabled: false\n  max_requests: 4294967297\n", "cbm=4294967297")]
 METRICS = [("", ""), ("metrics:\n  enabled: true\n  port: 9090\n  path: /metrics\n", "met=1;mp=9090;mpa=/metrics"),
            ("metrics:\n  enabled: true\n  port: 9090\n", "met=1;mp=9090"), ("metrics:\n  enabled: true\n  port: 70000\n  path: /m\n", "met=1;mp=70000;mpa=/m"),
            ("metrics:\n  enabled: false\n  port: -1\n", "mp=-1")]
@@ -179,7 +197,7 @@ def check(ctx):
     ctx.cov.update({
         "evaluations": len(episodes),
         "distinct_nontrivial": len(nontriv),
-        "rule": "configurations assembled from per-section variants (server 8, timeouts 8, backends 8, load_balancer 11, health 13, rate_limit 5, breaker 9, metrics 5, admin 4, logging 8; each section valid with probability 0.72 so that first-error order matters) plus plugin chains with valid/invalid YAML-typed options; loaded by the real LoadConfig and started in-process; plus the shipped helios.yaml, helios.docker.yaml and every complete README configuration. non-trivial = rejected or failed to start; distinct by verdict and field assignment",
+        "rule": "configurations assembled from per-section variants (server 8, timeouts 12, backends 8, load_balancer 13, health 16, rate_limit 6, breaker 15 (incl. values at and just beyond the time.Duration / uint32 ranges), metrics 5, admin 4, logging 8; each section valid with probability 0.72 so that first-error order matters) plus plugin chains with valid/invalid YAML-typed options; loaded by the real LoadConfig and started in-process; plus the shipped helios.yaml, helios.docker.yaml and every complete README configuration. non-trivial = rejected or failed to start; distinct by verdict and field assignment",
         "documented_files": [e[0].split()[1] for e in docs],
         "episodes": len(episodes), "traces_validated_against_impl": len(episodes), "verdicts": verdicts,
         "samples": [episodes[len(docs)][0].split(" ", 2)[-1]],
